@@ -391,6 +391,8 @@ func (g *Gen) rangeNext(x *ssa.Next, st *State) *State {
 	k := g.fresh("next.k", ks)
 	v := g.fresh("next.v", g.u.SortOf(mt.Elem()))
 	dom := g.mapDom(st, mt, rs.mapRef)
+	// ranging over a nil map visits nothing
+	g.assert(fmt.Sprintf("(=> (= %s 0) (not %s))", rs.mapRef, ok))
 	g.assert(g.u.rangeFact(k, mt.Key(), g.top(st)))
 	g.assert(g.u.rangeFact(v, mt.Elem(), g.top(st)))
 	// ok: k is an unvisited key of the map; !ok: every key has been visited
